@@ -236,6 +236,8 @@ def _ops(loader, M, gate_fn=None):
     out = [
         ("apply3", apply3),
         ("asnumpy", lambda: loader.asnumpy()),
+        # a binned loader of the same tomogram: the block sums do not depend on how the tomogram is chunked
+        ("binned_asnumpy", lambda: loader.binning(2, compute=False).asnumpy()),
         ("average", lambda: loader.average()),
         ("apply", lambda: loader.apply(stat)["stat"].to_numpy()),
         ("align", lambda: _mol_array(loader.align(tmpl, max_shifts=1.5, alignment_model=M))),
@@ -477,7 +479,7 @@ def run(rep: engine.Report, tier: str, seed: int):
         cases.append(dict(s, part="schedule", _i=i))
     for o in orders:
         cases.append(dict(o, part="order"))
-    for model in ("ZNCC", "PCC") if quick else ("ZNCC", "NCC", "PCC"):
+    for model in ("ZNCC", "PCC", "FSC") if quick else ("ZNCC", "NCC", "PCC", "FSC"):
         for sch, wk in (("synchronous", None), ("threads", 1), ("threads", 2), ("threads", 4), ("threads", 16)):
             cases.append(dict(part="scheduler", model=model, n=5, scheduler=sch, workers=wk, repeat=2 if quick else 6))
         for ch in ((26, 26, 82), (13, 13, 20), (7, 26, 9), (26, 5, 41)):
